@@ -75,10 +75,37 @@ Definition rgb_ok (W H : Z) (d : list Z) (pixc bckg : Z) (rgb : list Z) : bool :
   bytes_eqb rgb (rgb_expected W H d pixc bckg).
 
 (* ---- one/two-line centring ----
-   [sw] = reported string width, [lh] = reported line height, [sh] = horizontal size step.
+   The text extent is computed HERE, from the state alone - never taken from what the
+   implementation reports: formats 10/11 render with the text font (faces 1 = 8x8, 2 = 5x5,
+   everything else the default 5x7), horizontal/vertical size = TextWidth/TextHeight (2 bits)
+   when non-zero, else UnformattedFontSize limited to 1..4; default proportional mode = not
+   fixed width, no extra spacing.  The width of a line is the sum of the glyph advances of
+   the RUNES the string decodes to (each truncated to a byte, as the glyph code sees it),
+   minus one size step - Mono.str_width on the regenerated font tables (C20).
+   [sw] = that width, [lh] = line height, [sh] = horizontal size step.
    The metric box of width sw is centred in the active area: margins differ by at most one;
    all ink of the line lies in the box extended by one size step (C20's box). *)
 Definition no_lf_str (s : list Z) : bool := negb (existsb (Z.eqb 10) (range_bytes s)).
+
+Definition text_font_of (t : mtext) : mfont :=
+  match x_style t with
+  | Some st => match s_text st with Some f => f | None => mkFont 0 0 0 end
+  | None => mkFont 0 0 0
+  end.
+Definition ufs_of (t : mtext) : Z := match x_style t with Some st => s_ufs st | None => 0 end.
+Definition clamp14 (x : Z) : Z := Z.max 1 (Z.min x 4).
+
+Definition centre_tstate (t : mtext) : tstate :=
+  let f := text_font_of t in
+  let face := f_face f mod 8 in
+  let size0 := clamp14 (ufs_of t) in
+  let sh := if 0 <? f_w f mod 4 then f_w f mod 4 else size0 in
+  let sv := if 0 <? f_h f mod 4 then f_h f mod 4 else size0 in
+  mkT (if face =? 1 then 1 else if face =? 2 then 2 else 0) true 0 0 0 true true sh sv false.
+
+Definition line_width (t : mtext) (s : list Z) : Z := str_width (centre_tstate t) s.
+Definition line_h (t : mtext) : Z := line_height (centre_tstate t).
+Definition size_step (t : mtext) : Z := tsh (centre_tstate t).
 
 Definition ink_within (W H : Z) (d : list Z) (rlo rhi clo chi : Z) : bool :=
   all_cells (wib_of W) H (fun c r =>
@@ -96,17 +123,19 @@ Definition plain_mode (t : mtext) : bool :=
 
 Definition oneline_applies (t : mtext) (aw ah sw lh : Z) : bool :=
   (x_fmt t =? 10) && plain_mode t && no_lf_str (x_title t) && (0 <=? sw) && (sw <=? aw) && (lh <=? ah).
-Definition oneline_ok (t : mtext) (W H shrink border : Z) (d : list Z) (sw lh sh : Z) : bool :=
+Definition oneline_ok_m (t : mtext) (W H shrink border : Z) (d : list Z) (sw lh sh : Z) : bool :=
   let aw := active_w W shrink border in
   let ah := active_h H shrink border in
   negb (oneline_applies t aw ah sw lh) ||
   let '(clo, chi) := centred_cols border aw sw sh in ink_within W H d 0 H clo chi.
+Definition oneline_ok (t : mtext) (W H shrink border : Z) (d : list Z) : bool :=
+  oneline_ok_m t W H shrink border d (line_width t (x_title t)) (line_h t) (size_step t).
 
 Definition twoline_applies (t : mtext) (aw ah sw1 sw2 lh : Z) : bool :=
   (x_fmt t =? 11) && plain_mode t && no_lf_str (x_l1 t) && no_lf_str (x_l2 t)
   && (0 <=? sw1) && (sw1 <=? aw) && (0 <=? sw2) && (sw2 <=? aw) && (2 * lh <=? ah).
 (* line 1 lies above the middle row of the active area, line 2 from it downwards *)
-Definition twoline_ok (t : mtext) (W H shrink border : Z) (d : list Z) (sw1 sw2 lh sh : Z) : bool :=
+Definition twoline_ok_m (t : mtext) (W H shrink border : Z) (d : list Z) (sw1 sw2 lh sh : Z) : bool :=
   let aw := active_w W shrink border in
   let ah := active_h H shrink border in
   negb (twoline_applies t aw ah sw1 sw2 lh) ||
@@ -114,6 +143,8 @@ Definition twoline_ok (t : mtext) (W H shrink border : Z) (d : list Z) (sw1 sw2 
   let '(clo1, chi1) := centred_cols border aw sw1 sh in
   let '(clo2, chi2) := centred_cols border aw sw2 sh in
   ink_within W H d 0 midrow clo1 chi1 && ink_within W H d midrow H clo2 chi2.
+Definition twoline_ok (t : mtext) (W H shrink border : Z) (d : list Z) : bool :=
+  twoline_ok_m t W H shrink border d (line_width t (x_l1 t)) (line_width t (x_l2 t)) (line_h t) (size_step t).
 
 (* ---- strength bar: with everything but the value fixed and the value hidden (format 7),
    a larger value never lights fewer pixels (rangeLow < rangeHigh), and mirrored for a
